@@ -302,27 +302,53 @@ Proof.
   f_equal. apply IH. lia.
 Qed.
 
+Definition bindR (R : res) (k : env -> trace -> res) : res :=
+  match R with RNext e t => k e t | RBreak v e t => RBreak v e t | RFail o => RFail o end.
+
+Lemma agree_sym S en en' : agree S en en' -> agree S en' en.
+Proof. intros A x Hx. symmetry. apply A. exact Hx. Qed.
+
+Lemma rsim_sym Sn Sb R R' : rsim Sn Sb R R' -> rsim Sn Sb R' R.
+Proof.
+  destruct R, R'; simpl; try tauto.
+  - intros [-> A]. split; [reflexivity|apply agree_sym; exact A].
+  - intros [-> [-> A]]. repeat split. apply agree_sym. exact A.
+  - intros ->. reflexivity.
+Qed.
+
+(* The relation between one run of the original body and one iteration of the loop version is established once, for
+   either direction of reasoning: `prem R R'` says which of the two runs (source R, target R') is known not to be out
+   of fuel; `sim_s` / `sim_l` relate the two runs of a statement that the rewrite leaves alone. *)
 Section RwSim.
   Variable w : world.
   Variables c c' : callf_t.
   Variables lf lf' : nat.
   Variable fname : N.
   Variable ptys : list ty.
-  Hypothesis Hc : crefines c c'.
-  Hypothesis Hlf : (lf <= lf')%nat.
+  Variable prem : res -> res -> Prop.
+  Hypothesis prem_l : forall R R' k, prem (bindR R k) R' -> prem R R'.
+  Hypothesis prem_r : forall R R' k', prem R (bindR R' k') -> prem R R'.
+  Hypothesis prem_b : forall R R' k k', prem (bindR R k) (bindR R' k') -> prem R R'.
+  Hypothesis sim_s : forall s S en en' tr, scoped S s = true -> agree S en en' ->
+      prem (exec w c lf s en tr) (exec w c' lf' s en' tr) ->
+      rsim (defs s ++ S) S (exec w c lf s en tr) (exec w c' lf' s en' tr).
+  Hypothesis sim_l : forall ss S en en' tr, scoped_l S ss = true -> agree S en en' ->
+      prem (exec_list (exec w c lf) ss en tr) (exec_list (exec w c' lf') ss en' tr) ->
+      rsim (defs_l ss ++ S) S (exec_list (exec w c lf) ss en tr) (exec_list (exec w c' lf') ss en' tr).
 
   (* every result of `fname` is 0 (needed only when a result is discarded, see TailRec.rw_res) *)
   Definition ret0 : Prop := forall vs tr v tr2, c fname vs tr = CRet v tr2 -> wrap32 v = 0.
   Definition ds_ok (ds : list expr) : Prop := forall e, In e ds -> e = EInt 0 /\ ret0.
 
   (* `src` is the source computation (the original block, calls answered by c); tgt / args the rewritten block
-     (calls answered by c') and the loop values.  From environments that agree on the scope, a source run that is not out of fuel is matched:
+     (calls answered by c') and the loop values.  From environments that agree on the scope, when the run named by
+     `prem` is not out of fuel:
      (T) the rewritten block ends normally, the loop values evaluate to the arguments of the tail call, and the
          source result is that of the call, flowing into the expected collector;
      (B) the rewritten block breaks with the value the source leaves in the expected collector;
      (F) both fail alike. *)
   Definition spec (src : env -> trace -> res) (rc : option name) (tgt : env -> trace -> res) (args : list expr) (S : list name) : Prop :=
-    forall en en' tr, agree S en en' -> src en tr <> RFail FOof ->
+    forall en en' tr, agree S en en' -> prem (src en tr) (tgt en' tr) ->
     (exists en1' tr1, tgt en' tr = RNext en1' tr1 /\
         match c fname (map (eval w en1') args) tr1 with
         | CRet v tr2 => exists en2, src en tr = RNext en2 tr2 /\ rct rc en2 v
@@ -333,10 +359,7 @@ Section RwSim.
     \/ (exists o, src en tr = RFail o /\ tgt en' tr = RFail o).
 
   Definition after (g : quad -> expr) (fas : list quad) (sb : list stmt) : env -> trace -> res :=
-    fun en tr => match exec_list (exec w c lf) sb en tr with
-                 | RNext en1 tr1 => RNext (bind_g w g fas en1) tr1
-                 | o => o
-                 end.
+    fun en tr => bindR (exec_list (exec w c lf) sb en tr) (fun en1 tr1 => RNext (bind_g w g fas en1) tr1).
 
   (* the branch that was rewritten, when the other one was not: its statements run after the SingleIf *)
   Lemma lift_spec g sb rc rc' fas st args S :
@@ -346,8 +369,7 @@ Section RwSim.
     spec (after g fas sb) rc st args S.
   Proof.
     intros Hsp Hs Hd en en' tr A Hn. unfold after in *.
-    assert (Hn1 : exec_list (exec w c lf) sb en tr <> RFail FOof).
-    { intro E. rewrite E in Hn. congruence. }
+    pose proof (prem_l _ _ _ Hn) as Hn1.
     destruct (Hsp en en' tr A Hn1) as [[en1' [tr1 [Ht Hm]]]|[[en2 [tr1 [en1' [v [Hr [Ht Hb]]]]]]|[o [Hr Ht]]]].
     - left. exists en1', tr1. split; [exact Ht|].
       destruct (c fname (map (eval w en1') args) tr1) as [v tr2|o] eqn:Ec.
@@ -364,17 +386,20 @@ Section RwSim.
     scoped_l S sb = true -> no_break_l sb = true ->
     in_scope (defs_l sb ++ S) (brk_expr (find (is_rc rc) fas) g) = true ->
     sub_rc rc (find (is_rc rc) fas) g = Some rc' ->
-    agree S en en' -> after g fas sb en tr <> RFail FOof ->
+    agree S en en' ->
+    prem (after g fas sb en tr) (exec_list (exec w c' lf') (sb ++ [SBreak (brk_expr (find (is_rc rc) fas) g)]) en' tr) ->
     (exists en2 tr1 en1' v, after g fas sb en tr = RNext en2 tr1 /\
         exec_list (exec w c' lf') (sb ++ [SBreak (brk_expr (find (is_rc rc) fas) g)]) en' tr = RBreak v en1' tr1 /\
         rcb rc en2 v)
     \/ (exists o, after g fas sb en tr = RFail o /\
           exec_list (exec w c' lf') (sb ++ [SBreak (brk_expr (find (is_rc rc) fas) g)]) en' tr = RFail o).
   Proof.
-    intros Hs Hnb Hb Hsub A Hn. unfold after in *. rewrite exec_list_app.
-    assert (Hn1 : exec_list (exec w c lf) sb en tr <> RFail FOof).
-    { intro E. rewrite E in Hn. congruence. }
-    pose proof (exec_list_sim w c c' lf lf' Hc Hlf sb S en en' tr Hs A Hn1) as Hsim.
+    intros Hs Hnb Hb Hsub A Hn. unfold after in *. rewrite exec_list_app in Hn |- *.
+    assert (Hn1 : prem (exec_list (exec w c lf) sb en tr) (exec_list (exec w c' lf') sb en' tr)).
+    { apply (prem_b _ _ (fun en1 tr1 => RNext (bind_g w g fas en1) tr1)
+                        (fun en1 tr1 => exec_list (exec w c' lf') [SBreak (brk_expr (find (is_rc rc) fas) g)] en1 tr1)).
+      exact Hn. }
+    pose proof (sim_l sb S en en' tr Hs A Hn1) as Hsim.
     destruct (exec_list (exec w c lf) sb en tr) as [en1 tr1|v en1 tr1|o] eqn:E1.
     - destruct (exec_list (exec w c' lf') sb en' tr) as [en1' tr1'|v' en1' tr1'|o']; simpl in Hsim; try contradiction.
       destruct Hsim as [<- A1]. left. exists (bind_g w g fas en1), tr1, en1', (eval w en1' (brk_expr (find (is_rc rc) fas) g)).
@@ -393,14 +418,10 @@ Section RwSim.
     sub_rc rc (find (is_rc rc) fas) g = Some rc' ->
     ds_ok (sub_disc rc (find (is_rc rc) fas) g) ->
     spec (after g fas sb) rc
-         (fun en' tr => match exec_list (exec w c' lf') st en' tr with
-                        | RNext e t => RNext (bind_g w g (nfas ++ tfas) e) t
-                        | o => o
-                        end) args S.
+         (fun en' tr => bindR (exec_list (exec w c' lf') st en' tr) (fun e t => RNext (bind_g w g (nfas ++ tfas) e) t)) args S.
   Proof.
     intros Hsp Ha Hev Hs Hd en en' tr A Hn. unfold after in *.
-    assert (Hn1 : exec_list (exec w c lf) sb en tr <> RFail FOof).
-    { intro E. rewrite E in Hn. congruence. }
+    pose proof (prem_b _ _ _ _ Hn) as Hn1.
     destruct (Hsp en en' tr A Hn1) as [[en1' [tr1 [Ht Hm]]]|[[en2 [tr1 [en1' [v [Hr [Ht Hb]]]]]]|[o [Hr Ht]]]].
     - left. exists (bind_g w g (nfas ++ tfas) en1'), tr1. rewrite Ht. split; [reflexivity|].
       rewrite Hev. rewrite <- Ha in Hm. rewrite map_map in Hm.
@@ -459,7 +480,7 @@ Section RwSim.
       apply andb_true_iff in E. destruct E as [Eg Er]. apply N.eqb_eq in Eg. subst g.
       apply opt_eqb_eq in Er. subst ret. inversion H; subst; clear H.
       simpl in Hs. apply andb_true_iff in Hs. destruct Hs as [Hfr Hargs].
-      intros en en' tr A Hn. left. simpl in Hn |- *.
+      intros en en' tr A _. left. simpl.
       destruct rc as [r|].
       + exists ((r, 0) :: en'), tr. split; [reflexivity|].
         rewrite (map_eval_fresh w S args r 0 en en' Hargs (fresh_in_single _ _ Hfr) A).
@@ -506,7 +527,8 @@ Section RwSim.
                 | None => RFail FStuck
                 | Some true => after q_e1 fas s1 en tr
                 | Some false => after q_e2 fas s2 en tr
-                end) by reflexivity.
+                end).
+      { intros en tr. unfold after, bindR. simpl. destruct (cond (eval w en cnd)) as [[|]|]; reflexivity. }
       destruct r1 as [[[st1 a1] ds1]|]; destruct r2 as [[[st2 a2] ds2]|]; try discriminate.
       + (* both branches end in a tail call *)
         destruct (mk_fas k2 a1 a2 ptys) as [[args' tfas] k3] eqn:Em. inversion H; subst; clear H.
@@ -530,8 +552,15 @@ Section RwSim.
                       (IH1 _ _ _ _ _ _ _ E1 Hs1 Hnb1 Ha1 Hb1 Hds1') Hm1 (Hev q_e1) Hsub1 Hd1) as SP1.
         pose proof (lift_both q_e2 s2 rc rc2 fas nfas tfas st2 a2 args S
                       (IH2 _ _ _ _ _ _ _ E2 Hs2 Hnb2 Ha2 (below_le _ _ _ K1 Hb2) Hds2') Hm2 (Hev q_e2) Hsub2 Hd2) as SP2.
-        intros en en' tr A Hn. rewrite Hsrc in Hn |- *. rewrite exec_list_single.
-        cbn [exec]. rewrite <- (eval_agree w S en en' cnd Hcnd A).
+        assert (Htgt : forall en' tr, exec_list (exec w c' lf') [SIf cnd st1 st2 (nfas ++ tfas)] en' tr =
+                  match cond (eval w en' cnd) with
+                  | None => RFail FStuck
+                  | Some true => bindR (exec_list (exec w c' lf') st1 en' tr) (fun e t => RNext (bind_g w q_e1 (nfas ++ tfas) e) t)
+                  | Some false => bindR (exec_list (exec w c' lf') st2 en' tr) (fun e t => RNext (bind_g w q_e2 (nfas ++ tfas) e) t)
+                  end).
+        { intros en' tr. rewrite exec_list_single. unfold bindR. simpl. destruct (cond (eval w en' cnd)) as [[|]|]; reflexivity. }
+        intros en en' tr A Hn. rewrite Hsrc in Hn |- *. rewrite Htgt in Hn |- *.
+        rewrite <- (eval_agree w S en en' cnd Hcnd A) in Hn |- *.
         destruct (cond (eval w en cnd)) as [[|]|].
         * apply (SP1 en en' tr A Hn).
         * apply (SP2 en en' tr A Hn).
@@ -541,11 +570,21 @@ Section RwSim.
         destruct (ds_ok_app _ _ Hds) as [Hd1 Hds1].
         pose proof (lift_spec q_e1 s1 rc rc1 fas (exec_list (exec w c' lf') st1) args S
                       (IH1 _ _ _ _ _ _ _ E1 Hs1 Hnb1 Ha1 Hb1 Hds1) Hsub1 Hd1) as SP1.
-        intros en en' tr A Hn. rewrite Hsrc in Hn |- *.
-        cbn [exec_list exec]. rewrite <- (eval_agree w S en en' cnd Hcnd A).
-        destruct (cond (eval w en cnd)) as [[|]|]; cbn [xorb].
+        assert (Htgt : forall en' tr,
+                  exec_list (exec w c' lf') (SSIf cnd true (s2 ++ [SBreak (brk_expr (find (is_rc rc) fas) q_e2)]) :: st1) en' tr =
+                  match cond (eval w en' cnd) with
+                  | None => RFail FStuck
+                  | Some true => exec_list (exec w c' lf') st1 en' tr
+                  | Some false => bindR (exec_list (exec w c' lf') (s2 ++ [SBreak (brk_expr (find (is_rc rc) fas) q_e2)]) en' tr)
+                                        (exec_list (exec w c' lf') st1)
+                  end).
+        { intros en' tr. unfold bindR. cbn [exec_list exec]. destruct (cond (eval w en' cnd)) as [[|]|]; reflexivity. }
+        intros en en' tr A Hn. unfold brk_expr in Htgt. rewrite Hsrc in Hn |- *. rewrite Htgt in Hn |- *.
+        rewrite <- (eval_agree w S en en' cnd Hcnd A) in Hn |- *.
+        destruct (cond (eval w en cnd)) as [[|]|].
         * apply (SP1 en en' tr A Hn).
-        * destruct (brk_spec q_e2 s2 rc rc2 fas S en en' tr Hs2 Hnb2 (brk_in_scope rc fas q_e2 _ Hf2) Hsub2 A Hn)
+        * pose proof (prem_r _ _ _ Hn) as Hn2.
+          destruct (brk_spec q_e2 s2 rc rc2 fas S en en' tr Hs2 Hnb2 (brk_in_scope rc fas q_e2 _ Hf2) Hsub2 A Hn2)
             as [[en2 [tr1 [en1' [v [Hr [Ht Hb]]]]]]|[o [Hr Ht]]].
           -- right. left. exists en2, tr1, en1', v. unfold brk_expr in Ht. rewrite Ht. repeat split; assumption.
           -- right. right. exists o. unfold brk_expr in Ht. rewrite Ht. split; [assumption|reflexivity].
@@ -555,10 +594,20 @@ Section RwSim.
         destruct (ds_ok_app _ _ Hds) as [Hd2 Hds2].
         pose proof (lift_spec q_e2 s2 rc rc2 fas (exec_list (exec w c' lf') st2) args S
                       (IH2 _ _ _ _ _ _ _ E2 Hs2 Hnb2 Ha2 (below_le _ _ _ K1 Hb2) Hds2) Hsub2 Hd2) as SP2.
-        intros en en' tr A Hn. rewrite Hsrc in Hn |- *.
-        cbn [exec_list exec]. rewrite <- (eval_agree w S en en' cnd Hcnd A).
-        destruct (cond (eval w en cnd)) as [[|]|]; cbn [xorb].
-        * destruct (brk_spec q_e1 s1 rc rc1 fas S en en' tr Hs1 Hnb1 (brk_in_scope rc fas q_e1 _ Hf1) Hsub1 A Hn)
+        assert (Htgt : forall en' tr,
+                  exec_list (exec w c' lf') (SSIf cnd false (s1 ++ [SBreak (brk_expr (find (is_rc rc) fas) q_e1)]) :: st2) en' tr =
+                  match cond (eval w en' cnd) with
+                  | None => RFail FStuck
+                  | Some true => bindR (exec_list (exec w c' lf') (s1 ++ [SBreak (brk_expr (find (is_rc rc) fas) q_e1)]) en' tr)
+                                       (exec_list (exec w c' lf') st2)
+                  | Some false => exec_list (exec w c' lf') st2 en' tr
+                  end).
+        { intros en' tr. unfold bindR. cbn [exec_list exec]. destruct (cond (eval w en' cnd)) as [[|]|]; reflexivity. }
+        intros en en' tr A Hn. unfold brk_expr in Htgt. rewrite Hsrc in Hn |- *. rewrite Htgt in Hn |- *.
+        rewrite <- (eval_agree w S en en' cnd Hcnd A) in Hn |- *.
+        destruct (cond (eval w en cnd)) as [[|]|].
+        * pose proof (prem_r _ _ _ Hn) as Hn2.
+          destruct (brk_spec q_e1 s1 rc rc1 fas S en en' tr Hs1 Hnb1 (brk_in_scope rc fas q_e1 _ Hf1) Hsub1 A Hn2)
             as [[en2 [tr1 [en1' [v [Hr [Ht Hb]]]]]]|[o [Hr Ht]]].
           -- right. left. exists en2, tr1, en1', v. unfold brk_expr in Ht. rewrite Ht. repeat split; assumption.
           -- right. right. exists o. unfold brk_expr in Ht. rewrite Ht. split; [assumption|reflexivity].
@@ -578,12 +627,11 @@ Section RwSim.
         pose proof (IHr _ _ _ _ _ _ (defs s ++ S) E Hsr Hnbr Har Hbr Hds) as SPr.
         intros en en' tr A Hn.
         change (exec_list (exec w c lf) (s :: s2 :: r) en tr) with
-          (match exec w c lf s en tr with RNext e t => exec_list (exec w c lf) (s2 :: r) e t | o => o end) in *.
+          (bindR (exec w c lf s en tr) (exec_list (exec w c lf) (s2 :: r))) in *.
         change (exec_list (exec w c' lf') (s :: st) en' tr) with
-          (match exec w c' lf' s en' tr with RNext e t => exec_list (exec w c' lf') st e t | o => o end).
-        assert (Hn1 : exec w c lf s en tr <> RFail FOof).
-        { intro E0. rewrite E0 in Hn. congruence. }
-        pose proof (proj1 (exec_sim_both w c c' lf lf' Hc Hlf) s S en en' tr Hs A Hn1) as Hsim.
+          (bindR (exec w c' lf' s en' tr) (exec_list (exec w c' lf') st)) in *.
+        pose proof (prem_b _ _ _ _ Hn) as Hn1.
+        pose proof (sim_s s S en en' tr Hs A Hn1) as Hsim.
         destruct (exec w c lf s en tr) as [en1 tr1|v en1 tr1|o] eqn:Es.
         * destruct (exec w c' lf' s en' tr) as [en1' tr1'|v' en1' tr1'|o']; simpl in Hsim; try contradiction.
           destruct Hsim as [<- A1]. apply (SPr en1 en1' tr1 A1 Hn).
@@ -592,6 +640,26 @@ Section RwSim.
           subst o'. right. right. exists o. split; reflexivity.
   Qed.
 End RwSim.
+
+(* the two uses: the source run is not out of fuel (callees of the target refine those of the source), and the
+   target run is not out of fuel (callees of the source refine those of the target) *)
+Definition prem_fwd (R R' : res) : Prop := R <> RFail FOof.
+Definition prem_rev (R R' : res) : Prop := R' <> RFail FOof.
+
+Lemma bindR_oof R k : bindR R k <> RFail FOof -> R <> RFail FOof.
+Proof. intros H E. subst. apply H. reflexivity. Qed.
+
+Definition rw_sim_fwd w c c' lf lf' fname ptys (Hc : crefines c c') (Hlf : (lf <= lf')%nat) :=
+  rw_sim_both w c c' lf lf' fname ptys prem_fwd
+    (fun R R' k H => bindR_oof R k H) (fun R R' k' H => H) (fun R R' k k' H => bindR_oof R k H)
+    (fun s S en en' tr Hs A H => proj1 (exec_sim_both w c c' lf lf' Hc Hlf) s S en en' tr Hs A H)
+    (fun ss S en en' tr Hs A H => proj2 (exec_sim_both w c c' lf lf' Hc Hlf) ss S en en' tr Hs A H).
+
+Definition rw_sim_rev w c c' lf lf' fname ptys (Hc : crefines c' c) (Hlf : (lf' <= lf)%nat) :=
+  rw_sim_both w c c' lf lf' fname ptys prem_rev
+    (fun R R' k H => H) (fun R R' k' H => bindR_oof R' k' H) (fun R R' k k' H => bindR_oof R' k' H)
+    (fun s S en en' tr Hs A H => rsim_sym _ _ _ _ (proj1 (exec_sim_both w c' c lf' lf Hc Hlf) s S en' en tr Hs (agree_sym _ _ _ A) H))
+    (fun ss S en en' tr Hs A H => rsim_sym _ _ _ _ (proj2 (exec_sim_both w c' c lf' lf Hc Hlf) ss S en' en tr Hs (agree_sym _ _ _ A) H)).
 
 (* ---------- a function whose return value passes `ret_const` returns 0 only ---------- *)
 Lemma is_zero_eq e : is_zero e = true -> e = EInt 0.
@@ -869,7 +937,7 @@ Section Main.
       - rewrite forallb_forall in Hz. apply is_zero_eq. apply Hz. exact He.
       - destruct ds as [|d0 ds0]; [destruct He|]. intros vs0 tr0 v0 tr2 Hcall.
         rewrite (ret_const_sound w P fn Hfind Hrc m _ _ _ _ Hcall). reflexivity. }
-    pose proof (proj2 (rw_sim_both w (call w P m) (call w P' m) (S m) (S m) (f_name fn) (f_atys fn) IHc (le_n _))
+    pose proof (proj2 (rw_sim_fwd w (call w P m) (call w P' m) (S m) (S m) (f_name fn) (f_atys fn) IHc (le_n _))
                   (f_body fn) rc0 k stmts args ds k' (f_params fn) Hrw Hsc Hnb Har (belowb_below _ _ Hbel) Hds) as SP.
     (* the source *)
     simpl pred. simpl in Hn |- *. rewrite Hfind in Hn |- *. unfold run_body in Hn |- *.
